@@ -20,6 +20,7 @@ fn leaf(kind: &str, name: &str) -> Error {
         "missing" => Error::missing_field(name),
         "unknown" => Error::unknown_field(name),
         "shape" => Error::unsupported_shape(name),
+        "shapeexp" => Error::unsupported_shape_with_expected(name, &"e1 or e2"),
         "format" => Error::unsupported_format(name),
         "type" => Error::unexpected_type(name),
         "value" => Error::unknown_value(name),
@@ -257,13 +258,13 @@ pub fn replay_one(cx: &Ctx, case: &Value) -> Outcome {
     out
 }
 
-const ALL_KINDS: [&str; 10] = ["custom", "dup", "missing", "unknown", "shape", "format", "type", "value", "toofew", "toomany"];
+const ALL_KINDS: [&str; 11] = ["custom", "dup", "missing", "unknown", "shape", "shapeexp", "format", "type", "value", "toofew", "toomany"];
 
 /// Drive the real code with a random history and log one event per call with the projected pool.
 pub fn record(cx: &Ctx, rng: &mut Rng, nops: usize, max_pool: usize, max_leaves: usize, out: &mut Vec<Value>) {
     let mut pool: Vec<Error> = vec![];
     out.push(json!({"ev": "reset", "op": {"name": "reset", "i": 0, "a": "", "b": "", "s": 0, "sel": []}, "pool": []}));
-    let names = ["x", "y", "7"];
+    let names = ["x", "y.", "7"];      // a custom message that is a sentence
     let locs = ["a", "b", "c", "d"];
     for _ in 0..nops {
         let total: usize = pool.iter().map(|e| e.len()).sum();
